@@ -5,7 +5,7 @@ package actionlint
 // C15 — ignore patterns are an exact filter; results do not depend on the cwd.
 //
 // Complete product: 5 workflows (0 / 2 / 4 diagnostics, not YAML, ties at one position) x 17 CLI -ignore
-// sets x 4 `paths` globs x 5 config pattern sets x cwd in {root, parent, nested, unrelated} x path
+// sets x 7 `paths` globs x 5 config pattern sets x cwd in {root, parent, nested, unrelated} x path
 // spelling in {relative, ./relative, absolute}, each through Command.Main. Oracle: reference
 // filter (set difference in unchanged order; a paths entry applies iff its glob matches the path
 // relative to the repository root - match bits are part of the scenario table); exit status.
@@ -55,6 +55,11 @@ var c15Globs = []c15Glob{
 	{"**/w2.yml", map[string]bool{"w2.yml": true}},
 	{"nomatch/**", map[string]bool{}},
 	{".github/workflows/w4.yml", map[string]bool{"w4.yml": true}},
+	// the rest of the glob syntax: alternation with and without a wildcard after it, an escaped
+	// character, a character class and a single-character wildcard
+	{".github/workflows/{w0,w2}.yml", map[string]bool{"w0.yml": true, "w2.yml": true}},
+	{"{.github,.gitea}/work*/w\\4.yml", map[string]bool{"w4.yml": true}},
+	{".github/workflow?/w[2b]*.yml", map[string]bool{"w2.yml": true, "wbad.yml": true}},
 }
 
 var c15CfgSets = [][]string{nil, {"undefined variable"}, {"shell name", "is not defined in action"}, {".*"}, {"^undefined variable$", "^shell name$"}}
@@ -115,8 +120,8 @@ const c15OnelineTemplate = "{{range $ := .}}{{$.Filepath}}:{{$.Line}}:{{$.Column
 func TestVerifC15(t *testing.T) {
 	r := vNewReport("C15")
 	defer r.Write(t)
-	r.Extra["rule"] = "5 workflows (one of them not YAML at all, one with diagnostics of different rules at the same position) x 17 -ignore sets x 4 paths globs x 5 config ignore sets given by the repository's actionlint.yaml or by -config-file (repository without its own) x {no further entry, a further matching entry, a further non-matching entry, patterns given as YAML aliases} x 4 working directories x 7 path spellings (relative, ./relative, absolute; piped through stdin with a relative / absolute -stdin-filename; through a symbolic link to the repository's root, absolute / relative) through Command.Main (-oneline -no-color), complete product; oracle: unfiltered list minus diagnostics matched by a CLI pattern or by a config pattern whose glob matches the root-relative path, order preserved, exit 1 iff non-empty; plus every ordered pair / triple of files of 6 different locations (repository, sibling repository, nested repository, no repository, repositories whose .git is a file: alone and nested) x 3 working directories x relative / absolute spelling x {-oneline, equivalent -format template} in one invocation; plus exit-status rows (invalid flag 2; unreadable file, bad config, bad -ignore regexp, bad config regexp, non-string ignore element 3). class = (remaining diagnostics, exit status); non-trivial = something is filtered"
-	r.Extra["assumptions"] = []string{"glob match bits are part of the scenario table (written by hand for 4 globs x 3 files)", "working directory is process-global: cases run sequentially inside each worker process"}
+	r.Extra["rule"] = "5 workflows (one of them not YAML at all, one with diagnostics of different rules at the same position) x 17 -ignore sets x 7 paths globs (literal, *, **, {a,b} alternation with and without a later wildcard, escaped character, class, ?) x 5 config ignore sets given by the repository's actionlint.yaml or by -config-file (repository without its own) x {no further entry, a further matching entry, a further non-matching entry, patterns given as YAML aliases} x 4 working directories x 7 path spellings (relative, ./relative, absolute; piped through stdin with a relative / absolute -stdin-filename; through a symbolic link to the repository's root, absolute / relative) through Command.Main (-oneline -no-color), complete product; oracle: unfiltered list minus diagnostics matched by a CLI pattern or by a config pattern whose glob matches the root-relative path, order preserved, exit 1 iff non-empty; plus every ordered pair / triple of files of 6 different locations (repository, sibling repository, nested repository, no repository, repositories whose .git is a file: alone and nested) x 3 working directories x relative / absolute spelling x {-oneline, equivalent -format template} in one invocation; plus exit-status rows (invalid flag 2; unreadable file, bad config, bad -ignore regexp, bad config regexp, non-string ignore element 3). class = (remaining diagnostics, exit status); non-trivial = something is filtered"
+	r.Extra["assumptions"] = []string{"glob match bits are part of the scenario table (written by hand for 7 globs x 5 files)", "working directory is process-global: cases run sequentially inside each worker process"}
 	orig, _ := os.Getwd()
 	defer os.Chdir(orig)
 	base := vTempDir(t, "c15-")
